@@ -6,13 +6,16 @@
   `member_dot`, macro variable binding by `nested_activation`, and the evaluators of both runners
   (`eval .I`, `eval .C`) that are corresponded with the implementation on every run.
 
-  Quantifiers: ALL binding lists (any names over any alphabet, any length, any values), ALL package
-  paths, ALL references, ALL expressions (any nesting of macros), ALL enclosing chains.  Hypotheses
-  are only those the proof forces; each names a zone where the real code deviates (known findings):
+  Quantifiers: ALL binding lists (any names over any alphabet, any length, any values, any order,
+  duplicates), ALL package paths, ALL references, ALL expressions (any nesting of macros), ALL
+  enclosing chains.  Hypotheses are only those the proof forces; each names a zone where the real
+  code deviates (known findings) or where the property's statement is silent:
 
-    `PrefixFree bs`      (= NoValueUnderContainer) no bound name is a proper prefix of another bound
-                         name.  Otherwise the Referent holds a value AND a nested container, and
-                         `Referent.value` prefers the container: D19.
+    `CleanAt bs head rest L`  (= NoValueUnderContainer, on exactly the binding that is used) the
+                         binding the specification selects at level `L` — the longest bound prefix
+                         of the reference — is not a proper prefix of another bound name.  Otherwise
+                         its Referent holds a value AND a nested container and `Referent.value`
+                         prefers the container: D19.  (`PrefixFree bs` implies it.)
     `hns`                the reference is not a pure namespace prefix (a proper prefix of bound names
                          that is not itself bound): such a reference evaluates to the NameContainer
                          object instead of an error: D66.
@@ -26,20 +29,31 @@ open Cel Cel.Names
 /-- **A dotted reference denotes the binding whose name is its longest bound prefix, the remaining
 components being field selections; with a package `p.q` it is looked up as `p.q.a…`, then `p.a…`,
 then `a…`, the first level that binds `a` winning** — for every binding list, package, reference, in
-both runners (`r`), outside the two defect zones. -/
+both runners (`r`), outside the two defect zones.  `hclean` is exactly the complement of the known
+finding D19 (predicate `value_under_container`), `hns` of D66 (`namespace_as_value`). -/
 theorem resolve_eq_denote (r : Runner) (bs : List (List String × Val)) (pkg : List String) (head : String)
-    (rest : List String) (hne : NonEmptyNames bs) (hpf : PrefixFree bs)
+    (rest : List String) (hne : NonEmptyNames bs)
+    (hclean : ∀ L, L <+: pkg → CleanAt bs head rest L)
     (hpkg : ∀ b, b ∈ bs → ¬ b.1 <+: pkg)
     (hns : ∀ L, L <+: pkg → ¬ namespaceOnly bs (L ++ head :: rest)) :
     eval r pkg [loadValues [] bs] (.ref head rest) = denote bs pkg head rest :=
-  resolve_eq_denote_aux r bs pkg head rest hne hpf hpkg hns
+  resolve_eq_denote_clean r bs pkg head rest hne hclean hpkg hns
 
-/-- what the code computes for ANY prefix-free binding list, the defect zone D66 included: the walk
-through the loaded containers is `specRes` — a bound prefix followed by field selections, or the
-namespace itself when the path stops short of every binding -/
+/-- in particular for binding lists in which no name is a proper prefix of another -/
+theorem resolve_eq_denote_prefixFree (r : Runner) (bs : List (List String × Val)) (pkg : List String)
+    (head : String) (rest : List String) (hne : NonEmptyNames bs) (hpf : PrefixFree bs)
+    (hpkg : ∀ b, b ∈ bs → ¬ b.1 <+: pkg)
+    (hns : ∀ L, L <+: pkg → ¬ namespaceOnly bs (L ++ head :: rest)) :
+    eval r pkg [loadValues [] bs] (.ref head rest) = denote bs pkg head rest :=
+  resolve_eq_denote_clean r bs pkg head rest hne (fun L _ => cleanAt_of_prefixFree hpf head rest L) hpkg hns
+
+/-- what the code computes for EVERY binding list, both defect zones included: the walk through the
+loaded containers is `specResG` — below an identifier the nested container (if a longer name exists)
+wins over the value; a bound leaf is followed by field selections; a path that stops inside the
+namespace is the NameContainer itself -/
 theorem resolve_characterised (bs : List (List String × Val)) (p : List String) (hne : NonEmptyNames bs)
-    (hpf : PrefixFree bs) (hp : p ≠ []) : walk (loadValues [] bs) p = specRes bs p :=
-  walk_loaded p bs hpf hne hp
+    (hp : p ≠ []) : walk (loadValues [] bs) p = specResG bs p :=
+  walk_loadedG p bs hne hp
 
 /-- the entry a binding list creates for an identifier, in closed form: the value bound to exactly that
 name (the last binding wins) and, below it, the container loaded from the longer names -/
@@ -49,9 +63,15 @@ theorem loaded_entry (bs : List (List String × Val)) (h : String) :
   lookup_loaded bs h
 
 /-- D19 is real in the model: with `{a: {c: 1}, a.b: 2}` the reference `a.c` is an error, the
-specification says 1 (so `PrefixFree` cannot be dropped) -/
+specification says 1 (so `CleanAt` cannot be dropped) -/
 example : eval .I [] [loadValues [] [(["a"], .map [("c", .int 1)]), (["a", "b"], .int 2)]] (.ref "a" ["c"]) = none ∧
     denote [(["a"], .map [("c", .int 1)]), (["a", "b"], .int 2)] [] "a" ["c"] = some (.int 1) := by
+  constructor <;> rfl
+
+/-- … while a binding list that is not prefix-free is still covered when the binding used is a leaf:
+with `{a: {b: 5}, a.b: 2}` the reference `a.b` denotes the longer name, in code and specification -/
+example : eval .I [] [loadValues [] [(["a"], .map [("b", .int 5)]), (["a", "b"], .int 2)]] (.ref "a" ["b"]) = some (.int 2) ∧
+    denote [(["a"], .map [("b", .int 5)]), (["a", "b"], .int 2)] [] "a" ["b"] = some (.int 2) := by
   constructor <;> rfl
 
 /-- D66 is real in the model: with `{a.b: 2}` the reference `a` is the NameContainer object, the
